@@ -195,7 +195,7 @@ pub fn replay(case: &Value) -> Result<String, String> {
             let f = Fst::new(&bytes[..]).map_err(|e| format!("{:?}", e))?;
             let mut n = 0u64;
             for b in 0..=255u8 {
-                for bk in [vec![b], vec![b'p', b], vec![b, b'x'], vec![b'p', b, b'x']] {
+                for bk in [vec![b], vec![b'p', b], vec![b, b'x'], vec![b'p', b, b'x'], vec![b'k', b], vec![b'k', b, b'b']] {
                     for lo in [Lo::Ge, Lo::Gt] {
                         let got = drain(apply_bounds(f.range(), lo, &bk, Hi::None, b"").into_stream())?;
                         n += 1;
@@ -364,6 +364,41 @@ pub fn plan(tier: Tier) -> Plan {
                         Ok(c) => { st.evals += c; st.transitions += c * 8; }
                         Err(msg) => rep.violation(format!("gaps fan-out {} depth {} first labels {:?}", n, depth, &labels[..labels.len().min(4)]), msg, json!({"kvs": kvs_json(&kvs), "geom": [3, 3], "gaps": true})),
                     }
+                }
+            }
+        }));
+    }
+    // fan-out x output-width grid: lower bounds at every byte under the wide node
+    for part in 0..32usize {
+        p.units.push(unit("fanout-x-output-width-grid", format!("grid part {}", part), move |st, rep| {
+            for (gi, (_, kvs)) in fan_width_grid(part, 32).into_iter().enumerate() {
+                if gi % 4 != 0 && !thorough {
+                    continue;
+                }
+                st.states += 1;
+                st.nontrivial += 1;
+                let r = guard(|| {
+                    let bytes = front::build(Front::RawInsert, (3, 3), &kvs)?;
+                    let f = Fst::new(&bytes[..]).map_err(|e| format!("{:?}", e))?;
+                    let mut cnt = 0u64;
+                    for b in (0..=255u8).step_by(3) {
+                        for bk in [vec![b'k', b], vec![b'k', b, b'b']] {
+                            for (lo, hi) in [(Lo::Ge, Hi::None), (Lo::Gt, Hi::Le)] {
+                                let hik: Vec<u8> = vec![b'k', 0xf0];
+                                let got = drain(apply_bounds(f.range(), lo, &bk, hi, &hik).into_stream())?;
+                                cnt += 1;
+                                if got != expected(&kvs, lo, &bk, hi, &hik) {
+                                    return Err(format!("range {:?}({}) {:?}({}) gave {} items, expected {}", lo, key_str(&bk), hi, key_str(&hik), got.len(), expected(&kvs, lo, &bk, hi, &hik).len()));
+                                }
+                            }
+                        }
+                    }
+                    Ok(cnt)
+                })
+                .and_then(|x| x);
+                match r {
+                    Ok(c) => { st.evals += c; st.transitions += c * 4; }
+                    Err(msg) => rep.violation(format!("grid {} keys from {}", kvs.len(), key_str(&kvs[0].0)), msg, json!({"kvs": kvs_json(&kvs), "geom": [3, 3], "gaps": true})),
                 }
             }
         }));
